@@ -295,3 +295,9 @@ Proof.
   rewrite msgpack_slice_trial_verdict, msgpack_needs_collection_marker by (apply ascii_not_marker; exact Hc).
   rewrite json_slice_trial_verdict, Hs. reflexivity.
 Qed.
+
+(* the two forms of the JSON trial differ only by the slice form's upfront UTF-8
+   check: on valid UTF-8 - at any nesting depth, there is no recursion limit in
+   the trial - they give the same verdict *)
+Theorem json_trial_forms_agree inp : utf8_valid inp = true -> json_trial_slice inp = json_trial_reader inp.
+Proof. intros H. unfold json_trial_slice, json_trial_reader. now rewrite H. Qed.
